@@ -567,6 +567,33 @@ theorem setop_result_wellformed (E : Env) (ety : Ty) (k : SetOpKind) (hR : (setR
     setOpType E (setArgs ety sets) = .ok (.set ety) :=
   ⟨setOp_result_inv E ety k hR s1 s2, setOpType_same E ety hd sets hne hu⟩
 
+/-- **a dynamically-typed argument gives `cty.DynamicVal`** (the parameters declare
+`AllowDynamicType`, so `cty.DynamicVal` reaches the callbacks): `setOperationReturnType`
+answers the dynamic pseudo-type at the first such argument, whatever follows it, and
+`Impl` handed that return type answers `cty.DynamicVal` before it looks at any argument
+(since /repo 8027069; before that `ElementType()` panicked on the pseudo-type and the
+call came back as a `PanicError`). -/
+theorem setop_dynamic_argument (E : Env) (ety : Ty) (k : SetOpKind) (sets : List (List Int × List Payload))
+    (d : Value) (rest args : List Value) (hd : d.ty = .dyn) :
+    setOpType E (setArgs ety sets ++ d :: rest) = .ok .dyn ∧
+    setOpImpl E k args .dyn = .ok Value.dynVal :=
+  ⟨setOpType_dyn E ety sets d rest hd, setOpImpl_dyn E k args⟩
+
+/-- the former witnesses, as regression cases through the whole call protocol: each
+of the four functions called with `cty.DynamicVal` (alone, before and after a known
+set) returns `cty.DynamicVal`, not a `PanicError` -/
+theorem setop_dynamic_argument_regression :
+    (["setunion", "setintersection", "setsymmetricdifference"].map fun n =>
+      (byName n).map fun f => f.call {} [Value.dynVal]) =
+      [some (.ok Value.dynVal), some (.ok Value.dynVal), some (.ok Value.dynVal)] ∧
+    (["setunion", "setintersection", "setsubtract", "setsymmetricdifference"].map fun n =>
+      (byName n).map fun f => f.call {} [Value.dynVal, ⟨.set .string, .sset [] []⟩]) =
+      [some (.ok Value.dynVal), some (.ok Value.dynVal), some (.ok Value.dynVal), some (.ok Value.dynVal)] ∧
+    (["setunion", "setintersection", "setsubtract", "setsymmetricdifference"].map fun n =>
+      (byName n).map fun f => f.call {} [⟨.set .string, .sset [] []⟩, Value.dynVal]) =
+      [some (.ok Value.dynVal), some (.ok Value.dynVal), some (.ok Value.dynVal), some (.ok Value.dynVal)] :=
+  ⟨by rfl, by rfl, by rfl⟩
+
 /-! ## index; slice of a tuple; zipmap and merge result types -/
 
 /-- **index(list, i)**: the member at `i` when `0 ≤ i < len`, otherwise the error
